@@ -125,9 +125,56 @@ def fam_hostile(w: World) -> None:
                                                    'shape': 'hostile', 'family': 'hostile'})
 
 
-FAMILIES = {'server.traffic': fam_traffic, 'server.corrupted': fam_corrupted, 'server.hostile': fam_hostile}
+def fam_own_loader(w: World) -> None:
+    """A dispatcher whose ``json_loader`` produces values the encoder does not know (floats read as ``Decimal``), serving
+    requests to methods that never hand a parameter back (so the proviso "methods return JSON-encodable values" holds):
+    whatever the library itself puts into an error must still be encodable."""
+    import decimal
+    import functools
+    import json as _json
+    ch = w.ch
+    n = 1 + ch.draw(3, 'own_loader.n')
+    els = []
+    for k in range(n):
+        tok = f't{k}'
+        kind = ch.choice(['typed_bad', 'typed_bad', 'typed_ok', 'default_bad', 'unknown', 'nobind', 'none', 'kwonly_bad'],
+                         'own_loader.kind')
+        params: Any
+        if kind == 'typed_bad':
+            method, params = 'typed', ch.choice([[tok, 1.5], [tok, 2.5e3], {'tok': tok, 'n': 0.1}, [tok, [1.5]],
+                                                 [tok, {'a': 1.25}], [tok, 1, 2.5], {'tok': tok, 'n': 1, 'label': 3.5}],
+                                                'own_loader.params')
+        elif kind == 'typed_ok':
+            method, params = 'typed', [tok, ch.choice([1, 0, -3], 'own_loader.n_ok')]
+        elif kind == 'default_bad':
+            method, params = 'typed_default', ch.choice([[tok, 1.5], {'tok': tok, 'flag': 0.5}], 'own_loader.params')
+        elif kind == 'unknown':
+            method, params = 'nosuch', [tok, 1.5]
+        elif kind == 'nobind':
+            method, params = 'none', [tok, 1.5, 2.5]
+        elif kind == 'kwonly_bad':
+            method, params = 'kwonly', [tok, 1.5]
+        else:
+            method, params = 'none', [tok]
+        el: Dict[str, Any] = {'jsonrpc': '2.0', 'method': method, 'params': params}
+        if not ch.flag(1, 4, 'own_loader.notification'):
+            el['id'] = ch.choice([1, 2, 'a', 0, 1.5], 'own_loader.id') if k == 0 else k + 10
+        els.append(el)
+    doc: Any = els[0] if n == 1 and ch.flag(1, 2, 'own_loader.single') else els
+    text = _json.dumps(doc)
+    cfg = S.draw_config(ch, n)
+    S.plan_pauses(w, cfg, n + 1)
+    w.scenario = {'cfg': cfg, 'text': text, 'json_loader': 'json.loads(parse_float=Decimal)'}
+    w.nontrivial = True
+    sut = S.ServerUnderTest(w, cfg, extra_kwargs={
+        'json_loader': functools.partial(_json.loads, parse_float=decimal.Decimal)})
+    outcome = sut.deliver(text)
+    S.check_wellformed(w, PROP, text, outcome, dict(_cfg_ctx(cfg, {'shape': 'own_loader', 'kinds': []}, 'own_loader')))
+
+
+FAMILIES = {'server.own_loader': fam_own_loader, 'server.traffic': fam_traffic, 'server.corrupted': fam_corrupted, 'server.hostile': fam_hostile}
 PLAN = {
-    'quick': {'server.traffic': 42000, 'server.corrupted': 56000, 'server.hostile': 56000},
-    'thorough': {'server.traffic': 40000, 'server.corrupted': 60000, 'server.hostile': 60000},
+    'quick': {'server.own_loader': 12000, 'server.traffic': 42000, 'server.corrupted': 56000, 'server.hostile': 56000},
+    'thorough': {'server.own_loader': 20000, 'server.traffic': 40000, 'server.corrupted': 60000, 'server.hostile': 60000},
 }
 THOROUGH_BUDGET_S = 600
